@@ -840,6 +840,14 @@ ovni_ev_add_jumbo(struct ovni_ev *ev, const uint8_t *buf, uint32_t bufsize)
 	rthread.evlen += bufsize;
 
 	if (flushed) {
+		/* A large jumbo event may leave no room for the two flush
+		 * events. Write it now, otherwise adding them would trigger
+		 * another flush, nesting a second pair of flush events
+		 * inside this one. */
+		size_t need = 2 * sizeof(struct ovni_ev_header);
+		if (rthread.evlen + need >= OVNI_MAX_EV_BUF)
+			flush_evbuf();
+
 		/* Emit the flush events *after* the user event */
 		add_flush_events(t0, t1);
 	}
